@@ -96,7 +96,7 @@ Definition std_step (s os : list byte) (x : op) : option (list byte * list byte 
   match x with
   | OAsgC cs | OCtorC cs => mut true cs
   | OAsgS x | OCtorS x => mut true x
-  | OAsgFs | OCtorMv | OCtorCp => mut true os
+  | OAsgFs | OCtorMv | OCtorCp | OCtorFs => mut true os
   | OInsNC i c ch => mut ((i <=? ln) && (c <=? BIG)) (std_insert s i (repc ch c))
   | OInsPC i cs k => mut ((i <=? ln) && (k <=? nlen cs)) (std_insert s i (take k cs))
   | OInsC i cs => mut (i <=? ln) (std_insert s i cs)
